@@ -26,7 +26,8 @@ RULE = ('metric: generated models with 1-3 scalar/vector summaries and an elfi.D
         'and on generate(with_values=...) calls, against the scipy pairwise function applied '
         'row by row. adhist: a data set (1-3 summaries of width 1-3, 4-40 rows) fed to '
         'AdaptiveDistance.add_data under a tape-chosen partition into calls (single rows '
-        'included) over 1-4 rounds with update_distance / init_adaptation_round in between; '
+        'included) over 1-4 rounds with update_distance / init_adaptation_round in between, '
+        'some rounds done by an adaptive Rejection run on the same node instead of by hand; '
         'scale vs numpy std(ddof=0), newest distance, earlier distances unchanged. adsim: '
         'AdaptiveDistanceSMC (1-3 rounds) and adaptive Rejection under tape-chosen schedules. '
         'distinct = (kind, metric / partition shape / schedule abstract); non-trivial = metric: '
